@@ -71,7 +71,13 @@ impl BitmapEvent {
                         rle_32_decompress(&self.data, self.width as u32, self.height as u32, &mut result)?;
                         result
                     } else {
-                        self.data
+                        let size = self.width as usize * self.height as usize * 4;
+                        if self.data.len() < size {
+                            return Err(Error::RdpError(RdpError::new(RdpErrorKind::InvalidSize, "bitmap data shorter than width * height pixels")))
+                        }
+                        let mut result = self.data;
+                        result.truncate(size);
+                        result
                     }
                 )
             },
